@@ -29,7 +29,7 @@ RULE = (
 STATE_MEASURE = "(attach-frame class, sequence of target frame classes {inertial, rotating, local}, fault sites)"
 PROBES = [
     "cov_visited_rotating_frame", "local_after_rotating", "drag_cov_with_state", "back_to_attach_frame", "fault_fired_natural",
-    "fault_fired_injected", "atomic_failure_checked", "pickled_then_converted", "cache_dropped", "copy_joined_heap", "attached_in_local_frame", "drag_then_local", "twin_object", "reattached_to_other_state", "cov_built_from_cov", "class_changed_then_converted",
+    "fault_fired_injected", "atomic_failure_checked", "pickled_then_converted", "cache_dropped", "copy_joined_heap", "attached_in_local_frame", "drag_then_local", "twin_object", "reattached_to_other_state", "cov_built_from_cov", "class_changed_then_converted", "reattached_to_a_state_given_in_another_frame",
 ]
 REAL_VS_STUB = "real: Cov, StateVector/Orbit, frames/orientations (iau1980/iau2010 with zero or real IERS EOP from the simulated disk), to_local, pickle; stub: none (injected faults are raising wrappers in the node's private package copy); model: own QSW/TNW axes from (r0, v0) in F0, R C R^T with R from a pristine node's single-hop orientation matrix"
 ASSUMPTIONS = [
@@ -119,6 +119,9 @@ def gen_plan(rng, tier, i):
     import random
 
     child = random.Random("c14-child:" + repr(obj["cov_seed"]) + repr(len(ops)))  # operations added after the first version: own generator, earlier plans keep their draws
+    for o_ in ops:
+        if o_["op"] == "reattach" and child.random() < 0.6:
+            o_["owner_frame"] = child.choice(INERTIAL)
     if child.random() < 0.3:
         # the state becomes an Orbit / a StateVector again (as_orbit / as_statevector) somewhere in the history: same state, same covariance
         ops.insert(child.randint(0, len(ops)), {"op": "as_other", "obj": child.randrange(4)})
@@ -625,11 +628,16 @@ class World:
         date = world.mk_date(n, m.date[:2], m.date[2])
         sv_b = n.StateVector(self.plan["knobs"]["kep_b"], date, "keplerian", m.F0)
         sv_b.form = "cartesian"
+        rv_b = np.array(sv_b, dtype=float)  # the new owner, in the frame the covariance is expressed in
+        if op.get("owner_frame") and op["owner_frame"] != m.F0:
+            # the new owner is given in another non-rotating frame than the one the covariance is expressed in
+            sv_b.frame = op["owner_frame"]
+            ctx.probe("reattached_to_a_state_given_in_another_frame")
         cov = o.cov
         sv_b.cov = cov
         del o.cov
         C_now = np.frombuffer(b["cov"]).reshape(6, 6).copy()
-        m2 = Tracked(C_now, m.F0, m.F0, np.array(sv_b, dtype=float), m.date)
+        m2 = Tracked(C_now, m.F0, m.F0, rv_b, m.date)
         m2.visited = [m.F0]
         # the source state leaves the heap (it has no covariance any more), the new owner takes its place
         self.objs[j] = sv_b
